@@ -227,6 +227,7 @@ func (r *plRunner) step(s Step) (bool, string) {
 			return false, "cancel of a call that was not started"
 		}
 		r.rec.Log("Cancel", "c", c)
+		cl.cancelled = true
 		cl.cancel()
 	case "Dial":
 		if !poll(stepWait, func() bool { return r.dialer.Count() >= x }) {
@@ -324,7 +325,10 @@ func (r *plRunner) step(s Step) (bool, string) {
 			return false, fmt.Sprintf("conn %d cannot be killed", x)
 		}
 	case "UClose":
-		if !poll(stepWait, func() bool { f := r.conn(x); return f != nil && func() bool { r.mu.Lock(); defer r.mu.Unlock(); return f.closed }() }) {
+		if !poll(stepWait, func() bool {
+			f := r.conn(x)
+			return f != nil && func() bool { r.mu.Lock(); defer r.mu.Unlock(); return f.closed }()
+		}) {
 			return false, fmt.Sprintf("conn %d was not closed", x)
 		}
 	case "TClose":
@@ -344,6 +348,39 @@ func (r *plRunner) step(s Step) (bool, string) {
 		return false, "unknown step " + a
 	}
 	return true, ""
+}
+
+// patient: what must happen without further help: a cancelled call returns; once transport Close has
+// returned every call returns and every pending dial ends through its context.
+func (r *plRunner) patient() (hang []string) {
+	poll(patientWait, func() bool {
+		hang = nil
+		cr := false
+		select {
+		case <-r.closeDone:
+			cr = true
+		default:
+		}
+		for _, cl := range r.cs.all() {
+			select {
+			case <-cl.done:
+				continue
+			default:
+			}
+			if cr {
+				hang = append(hang, fmt.Sprintf("call %d pending after Close", cl.id))
+			} else if cl.cancelled {
+				hang = append(hang, fmt.Sprintf("cancelled call %d", cl.id))
+			}
+		}
+		if cr {
+			for _, p := range r.dialer.Pending() {
+				hang = append(hang, fmt.Sprintf("dial %d pending after Close", p.ID))
+			}
+		}
+		return len(hang) == 0
+	})
+	return hang
 }
 
 // drain: pending dials fail, exchanges on healthy connections are answered, stale connections fail.
@@ -419,12 +456,16 @@ func runPipeline(idx int, sc Script) Result {
 			break
 		}
 	}
-	res.Hang = r.drain()
+	res.Hang = r.patient()
+	res.Hang = append(res.Hang, r.drain()...)
 	r.startClose()
 	if !waitDone(r.closeDone, hangWait) {
 		res.Hang = append(res.Hang, "transport Close")
 	}
-	res.Hang = append(res.Hang, r.drain()...)
+	if len(res.Hang) == 0 {
+		res.Hang = append(res.Hang, r.patient()...)
+	}
+	r.drain()
 	if len(res.Hang) == 0 && !sc.NoPostCall {
 		r.startCall(postCall)
 		if !waitDone(r.cs.get(postCall).done, hangWait) {
